@@ -28,7 +28,7 @@ TESTED_ONLY = {
  'C11': ['a simplex exactly on the cliques beyond 4 points, idempotence, growFlagComplex = rebuild (oracles c11, samefam); same points and edges, source contained with names / orders / faces, only orders >= 2 added are proved for every complex'],
  'C12': ['the family for arbitrary point sets in binary64 (oracle c12 with its own metric; the binary64 model itself is compared bit for bit with the code on every run); negative radius and diameter cases beyond the examples'],
  'C13': ['indices() / simplicesAddedAtIndex bookkeeping against the births, deletion of the whole star across indices, complexes() as a whole, addSimplexWithBasis on a filtration (shadow-log oracle c13); monotone views, births, views closed under faces and closed snapshots are proved for every history'],
- 'C14': ['agreement of listings, counts, Euler characteristic, Betti numbers of the index-aware queries with the snapshot (oracle c14 per query; membership / order / faces of visible simplices are proved); setMinimumIndex / setMaximumIndex'],
+ 'C14': ['numberOfSimplices / per-order counts as lists, Betti numbers of the index-aware queries against the snapshot (oracle c14 per query; membership / order / faces of visible simplices, the listings per order and as a whole and the Euler characteristic are proved for every filtration history); setMinimumIndex / setMaximumIndex'],
  'C15': ['the renaming function of a whole relabel being the user mapping on every name, attributes along it, relabelDisjointFrom renaming only collisions, addSimplicesFrom isomorphism (oracle c15-pre/post); names-only, structure carried and Betti invariance are proved'],
  'C16': ['compatible => accepted, merged attribute values, target complexes (oracle c16); result = union and accepted => compatible are proved for every pair'],
  'C17': ['the JSON text layer (json.dumps / loads, files), name types, nested / unicode attribute values, wrapping in other JSON, filtrations, acceptance of every encoding (oracle c17); the structural round trip is proved for every complex'],
